@@ -179,6 +179,7 @@ def run_scenario(arg):
                 oc.inconclusive.append("fault-free run failed rc=%s %s" % (res.rc, res.err[-200:]))
                 return oc
             ref = result_of(sc, res, work)
+            ref_err = set(l.strip() for l in res.err.split(b"\n"))      # warnings that the fault-free run prints as well are not a diagnostic of the fault
             counts = {}
             for l in open(cnt):
                 k, v = l.split()
@@ -246,7 +247,7 @@ def run_scenario(arg):
                     continue
                 if res.rc != 0:
                     oc.inc("reported")
-                    if not res.err.strip():
+                    if not [l for l in res.err.split(b"\n") if l.strip() and l.strip() not in ref_err]:
                         oc.violate("%s:silent-failure" % where, detail)
                     if sc.packer and os.path.exists(sc.outpath):
                         oc.violate("%s:output-left-behind" % where, detail)
@@ -260,6 +261,48 @@ def run_scenario(arg):
             oc.features = (idx, sc.name)
             oc.sample = {"scenario": sc.name, "input": idx, "calls": {k: v for k, v in counts.items() if v}, "positions": len(plan),
                          "sites": sorted("%s@%s" % s for s in sites)[:12]}
+    except Exception:
+        oc.inconclusive.append("harness exception: %s" % traceback.format_exc()[-800:])
+    return oc
+
+
+def stdout_case(arg):
+    """Output written through stdio (listing, stat, xattr dump, describe; cat and sqfs2tar for comparison) to a destination that
+    fails: /dev/full (every write fails with ENOSPC) and, under strace, the k-th write system call of the process failing.
+    The link-time wrappers do not see writes that libc issues itself, so this is injected at the system call level."""
+    idx, tier = arg
+    oc = core.Outcome("stdout-%d" % idx, features=("stdout", idx))
+    try:
+        B = build.build("plain")
+        with core.Scratch("c13o") as work:
+            S = scenarios_for(build.build("asan"), work, idx, tier)
+            for sc in [x for x in S if x.outkind == "stdout"]:
+                argv = [B[sc.tool]] + sc.args
+                ref = subprocess.run(argv, stdout=subprocess.PIPE, stderr=subprocess.PIPE, cwd=work)
+                if ref.returncode != 0:
+                    continue
+                with open("/dev/full", "wb") as full:
+                    r = subprocess.run(argv, stdout=full, stderr=subprocess.PIPE, cwd=work, timeout=120)
+                oc.inc("dev_full_runs")
+                if ref.stdout and r.returncode == 0:
+                    oc.violate("%s:stdout-enospc:exit0-output-lost" % sc.name, "stdout is /dev/full: exit 0 although %d bytes of output could not be written" % len(ref.stdout))
+                elif ref.stdout and not r.stderr.strip():
+                    oc.violate("%s:stdout-enospc:silent-failure" % sc.name, "exit %d without a message" % r.returncode)
+                # k-th write system call fails
+                cnt = subprocess.run(["strace", "-f", "-e", "trace=write", "-o", os.path.join(work, "w.log")] + argv, stdout=subprocess.PIPE, stderr=subprocess.PIPE, cwd=work)
+                try:
+                    nw = sum(1 for l in open(os.path.join(work, "w.log")) if " write(" in l or l.startswith("write("))
+                except OSError:
+                    nw = 0
+                for k in range(1, min(nw, 12 if tier == "quick" else 60) + 1):
+                    r = subprocess.run(["strace", "-f", "-o", "/dev/null", "-e", "trace=write", "-e", "inject=write:error=EIO:when=%d" % k] + argv,
+                                       stdout=subprocess.PIPE, stderr=subprocess.PIPE, cwd=work, timeout=120)
+                    oc.inc("syscall_write_faults")
+                    if r.returncode == 0 and r.stdout != ref.stdout:
+                        oc.violate("%s:stdout-eio:exit0-different-output" % sc.name, "write system call #%d of %d fails with EIO: exit 0, %d of %d bytes arrived" % (k, nw, len(r.stdout), len(ref.stdout)))
+                    elif r.returncode != 0 and not r.stderr.strip() and k < nw:
+                        oc.violate("%s:stdout-eio:silent-failure" % sc.name, "write system call #%d fails: exit %d without a message" % (k, r.returncode))
+            oc.sample = {"input": idx, "dev_full_runs": oc.counters.get("dev_full_runs"), "syscall_write_faults": oc.counters.get("syscall_write_faults")}
     except Exception:
         oc.inconclusive.append("harness exception: %s" % traceback.format_exc()[-800:])
     return oc
@@ -287,6 +330,34 @@ def trunc_case(arg):
                 if dlen:
                     inside.append(pos + 512 + r.randrange(0, max(1, size)))
                 pos += 512 + dlen
+            # cuts inside the zero padding that follows member data, and inside members that tar2sqfs skips (-r / -E)
+            pad_cuts, first_data = [], None
+            pos = 0
+            while pos + 512 <= len(tardata) and tardata[pos:pos + 512] != bytes(512):
+                size = int(tardata[pos + 124:pos + 135].strip(b"\0 ") or b"0", 8) if tardata[pos + 124] < 0x80 else 0
+                dlen = (size + 511) // 512 * 512
+                if size % 512:
+                    pad_cuts.append(pos + 512 + size + r.randrange(0, 512 - size % 512))
+                if size and first_data is None and tardata[pos + 156:pos + 157] in (b"0", b"\0"):
+                    first_data = (pos, size, tardata[pos:pos + 100].split(b"\0")[0])
+                pos += 512 + dlen
+            variants = [(off, t2s.args, "padding") for off in pad_cuts[:10 if tier == "quick" else 100]]
+            if first_data:
+                fpos, fsize, fname = first_data
+                cut = fpos + 512 + max(1, fsize // 2)
+                variants.append((cut, ["-E", fname.decode("latin1")] + t2s.args, "excluded-member"))
+                variants.append((cut, ["-r", "no-such-root-dir"] + t2s.args, "outside-new-root"))
+            for off, targs, what in variants:
+                sc = Scenario("tar2sqfs", "tar2sqfs", targs, stdin=tardata[:off], outpath=t2s.outpath, packer=True)
+                res = run_one(B, sc, work, {})
+                oc.inc("truncated_tar_runs")
+                oc.inc("truncated_tar_" + what)
+                if res.san:
+                    oc.violate("tar2sqfs:truncated-input:crash:%s" % res.san, "cut at %d (%s)" % (off, what), {"stderr.txt": res.err})
+                elif res.rc == 0:
+                    oc.violate("tar2sqfs:truncated-input:accepted:%s" % what, "tar cut at byte %d of %d (inside %s) packed with exit 0" % (off, len(tardata), what))
+                elif not res.err.strip():
+                    oc.violate("tar2sqfs:truncated-input:silent-failure", "cut at %d (%s)" % (off, what))
             for off in inside[:40 if tier == "quick" else 400]:
                 sc = Scenario("tar2sqfs", "tar2sqfs", t2s.args, stdin=tardata[:off], outpath=t2s.outpath, packer=True)
                 res = run_one(B, sc, work, {})
@@ -348,6 +419,8 @@ def main(tier):
         rep.add(oc)
     if not os.environ.get("VERIF_ONLY"):
         for oc in core.pmap(trunc_case, [(i, tier) for i in range(2 if tier == "quick" else 8)]):
+            rep.add(oc)
+        for oc in core.pmap(stdout_case, [(i, tier) for i in range(2)]):
             rep.add(oc)
     rep.extra["scenarios"] = len(set(x[:2] for x in items))
     rep.extra["scenarios_enumerated_exhaustively"] = exh
